@@ -2057,6 +2057,10 @@ def eval_term(t, val, cache=None):
             r = v[0] / v[1]
         elif k == z3.Z3_OP_POWER:
             r = v[0] ** v[1]
+        elif k == z3.Z3_OP_IDIV:
+            r = (int(round(v[0])) // int(round(v[1]))) if int(round(v[1])) else 0
+        elif k == z3.Z3_OP_MOD:
+            r = (int(round(v[0])) % int(round(v[1]))) if int(round(v[1])) else 0
         elif k == z3.Z3_OP_TO_REAL:
             r = float(v[0])
         elif k == z3.Z3_OP_EQ:
